@@ -1,4 +1,4 @@
-import PrimaiteModel.Model.FileSystemNode
+import PrimaiteModel.Model.FileSystemLoader
 open Primaite Primaite.FileSystem
 
 /-- `~` is the empty name on the wire. -/
@@ -56,6 +56,19 @@ def sNode (n : NState) : String := s!"p={showBool n.on}/{n.scanCd}"
 def answer (n' : NState) (o : Out) : String :=
   sOut o ++ " | " ++ dump n'.x ++ " " ++ sNode n' ++ " | " ++ sDesc (describe n'.x.s)
 
+/-- `F|given>stored|given>stored;F2;…` (`-` = no configured folder). -/
+def parseCfg (spec : String) : List CfgFolder :=
+  if spec = "-" then [] else
+  (spec.splitOn ";").map fun part =>
+    match part.splitOn "|" with
+    | [] => { name := "", files := [] }
+    | F :: fs =>
+      { name := pName F,
+        files := fs.filterMap fun p =>
+          match p.splitOn ">" with
+          | [a, b] => some (pName a, pName b)
+          | _ => none }
+
 def pBool : String → Option Bool
   | "1" => some true | "0" => some false | _ => none
 
@@ -72,6 +85,13 @@ def stepLine (n : NState) : List String → NState × String
     | some b, some dur => ({ n with on := b, scanDur := dur }, "ok")
     | _, _ => (n, "bad-op")
   | ["dump"] => (n, dump n.x ++ " " ++ sNode n)
+  | ["load", spec] =>  -- HostNode.__init__ over the configured folders; an exception leaves no node behind
+    let r := loadConfig n.x.s (parseCfg spec)
+    match r.2 with
+    | .success => let n' := { n with x := { n.x with s := r.1 } }; (n', answer n' .success)
+    | o => (n, sOut o)
+  | ["setup"] =>  -- setup_for_episode
+    let n' := { n with x := { n.x with s := setupForEpisode n.x.s } }; (n', answer n' .success)
   | ["pre"] => let r := nstep n .preTimestep; (r.1, answer r.1 r.2)
   | ["tick"] => let r := nstep n (.applyTimestep n.on); (r.1, answer r.1 r.2)
   | ["tick", b] =>
